@@ -62,6 +62,10 @@ class Plan:
     # operation at position i of thread t is abandoned at the floor(f * n)-th source line of the package it
     # executes, n being the number of lines the same thread executed for the same operation just before
     crash_at: dict | None = None
+    # scripted pre-emption (single-preemption enumeration): {"thread": t, "index": i, "at_line": "file:line", "to": u}
+    # -- at its first arrival at that source line the operation is parked and caller u runs (without further
+    # pre-emption) until it has nothing left to do; then the parked operation continues
+    switch_at: dict | None = None
 
     def to_json(self):
         return dict(self.__dict__)
@@ -132,6 +136,22 @@ def make_crash_probe_plan(seed: int, catalogue_keys: list[str], groups: dict[str
     )
 
 
+def make_switch_probe_plan(seed: int, target: str, other: str, at_line: str, extra: list[str]) -> Plan:
+    """Two callers, one forced switch: `target` is parked at its first arrival at `at_line`, `other` (a twin,
+    another program form or a duplicate of the same configuration) runs to completion, `target` resumes."""
+    return Plan(
+        seed=seed,
+        threads=[[target] + list(extra), [other]],
+        p_line=0.0,
+        p_fault=0.0,
+        p_crash=0.0,
+        faults=[],
+        max_crashes=0,
+        note="switch-probe",
+        switch_at={"thread": 0, "index": 0, "at_line": at_line, "to": 1},
+    )
+
+
 # --------------------------------------------------------------------------------------
 
 
@@ -170,6 +190,7 @@ class _Caller:
     lines_in_op: int = 0
     crash_line: int = -1
     crash_at_line: str | None = None
+    switch_at_line: str | None = None
 
 
 TOOL_ID = 3  # sys.monitoring tool slot (0-5; 3 is unassigned by convention)
@@ -211,11 +232,13 @@ class Simulator:
             "retries": 0,
             "session_leaks": 0,
             "lock_waits": 0,
+            "scripted_switches": 0,
         }
         self.wall_cap = wall_cap
         self._monitoring = False
         self._line_firsts: dict = {}
         self.focus_files: set = set()
+        self.exclusive = None
 
     # ------------------------------------------------------------------ event log
     def _log(self, *ev):
@@ -290,6 +313,11 @@ class Simulator:
         if self.plan.p_fault and cur.rng.random() < self.plan.p_fault:
             self._inject_fault(cur, site)
         runnable = self._runnable()
+        if self.exclusive is not None:
+            if self.exclusive.done:
+                self.exclusive = None
+            elif self.exclusive in runnable:
+                runnable = [self.exclusive]
         nxt = cur.rng.choice(runnable) if runnable else None
         self._log("yield", kind, cur.idx, site, None if nxt is None else nxt.idx)
         if nxt is None:
@@ -320,6 +348,15 @@ class Simulator:
             return
         self.stats["line_events"] += 1
         c.lines_in_op += 1
+        if c.switch_at_line is not None and c.switch_at_line == f"{code.co_filename[len(self.root):]}:{line}":
+            c.switch_at_line = None
+            to = self.callers[self.plan.switch_at["to"]]
+            if not to.done:
+                self.stats["scripted_switches"] += 1
+                self.stats["line_switches"] += 1
+                self._log("yield", "line-scripted", c.idx, f"{code.co_filename[len(self.root):]}:{line}", to.idx)
+                self.exclusive = to  # nobody else is chosen until `to` has finished
+                self._handover(c, to)
         if c.crash_at_line is not None and c.crash_at_line == f"{code.co_filename[len(self.root):]}:{line}" and self._natural_line_start(code, line):
             c.crash_line = c.lines_in_op  # fall through to the scripted crash below
             c.crash_at_line = None
@@ -361,7 +398,7 @@ class Simulator:
 
     def _start_monitoring(self):
         mon = sys.monitoring
-        if self.plan.p_line <= 0 and self.plan.p_crash <= 0 and not self.plan.crash_at and not (self.focus_files and len(self.callers) > 1):
+        if self.plan.p_line <= 0 and self.plan.p_crash <= 0 and not self.plan.crash_at and not self.plan.switch_at and not (self.focus_files and len(self.callers) > 1):
             return
         mon.use_tool_id(TOOL_ID, "premise-audit")
         mon.register_callback(TOOL_ID, mon.events.LINE, self._on_line)
@@ -402,6 +439,8 @@ class Simulator:
                     ca = self.plan.crash_at
                     c.crash_line = -1
                     c.crash_at_line = None
+                    sa = self.plan.switch_at
+                    c.switch_at_line = sa["at_line"] if (sa and sa["thread"] == c.idx and sa["index"] == i and attempt == 0) else None
                     if ca and ca["thread"] == c.idx and ca["index"] == i and attempt == 0:
                         if ca.get("at_line"):
                             c.crash_at_line = ca["at_line"]  # abandon at the first arrival at this source line
@@ -466,6 +505,10 @@ class Simulator:
         self._start_monitoring()
         try:
             first = random.Random(f"{self.seed}|start").choice(self.callers)
+            if self.plan.switch_at:
+                # the operation to be parked goes first and alone until the scripted switch fires
+                first = self.callers[self.plan.switch_at["thread"]]
+                self.exclusive = first
             self._log("start", first.idx)
             first.event.set()
             t0 = REAL_MONOTONIC()
